@@ -7,7 +7,7 @@ from . import verify_common as vc
 from .common import Oracle, Suite, errname, hx, merge
 from .formats_common import cps
 
-GEN_UNITS = ["Verify", "Handlers", "ShaCrypt", "B64"]
+GEN_UNITS = ["Verify", "Handlers", "ShaCrypt", "B64", "FormatDigests"]
 LEAN_TARGETS = ["PasslibVerif.Props.C05"]
 ASSUMPTIONS = [
     "that a format's algorithm reads only its first n bytes (ReadsOnly n) is a fact about the algorithm: a theorem for bcrypt's key schedule (C11, 72 bytes), checked on the real hashers for DES-based and LM/cisco formats",
